@@ -135,3 +135,96 @@ class RunExtract(_RunBase):
             ("zero-only-for-7z-files", Implies(zero, And(bool(is7), truthy(is7[-1].result)) if is7 else False)),
             ("handled-exceptions-give-nonzero", Implies(zero, eng.ghost["caught"] == 0)),
         ]
+
+
+@contract
+class RunCreate(_RunBase):
+    """`py7zr c`: the archive created is ARCNAME when it already ends in `.7z` and ARCNAME + `.7z` otherwise (the
+    extension is appended, never substituted for another dotted component); an existing file is never overwritten;
+    exit status 0 only after every named source was handed to write()/writeall() without an exception"""
+
+    target = CLI + "Cli.run_create"
+    pure = ("str", "pathlib.Path", "Path", "is_dir")
+    noraise = ("write", "print", "pathlib.Path", "Path", "show_help")
+    frame_preserving = ("write", "print", "pathlib.Path", "Path", "exists", "is_dir", "show_help")
+    assumptions = ("argparse delivers args.arcfile as a str; pathlib.Path(s) is a pure function of s",)
+
+    def raises(self):
+        return _RunBase.raises(self) + [RaiseSpec("SystemExit")]  # exit(1) on a bad volume size / an existing archive
+
+    def setup(self, c):
+        b = _RunBase.setup(self, c)
+        c.eng.ghost["arcfile"] = c.str("arcfile")
+        return b
+
+    def attr_model(self, attr):
+        if attr == "arcfile":
+            return lambda ctx, o: ctx.eng.ghost["arcfile"]
+        return None
+
+    def hooks(self):
+        h = dict(_RunBase.hooks(self))
+
+        def on_exit(c, ev):
+            # exit() does not return: it raises SystemExit
+            from pyvc.engine import RaiseExc
+
+            raise RaiseExc("SystemExit", (), ev.node)
+
+        def on_open(c, ev):
+            eng = c.eng
+            s = eng.ghost["arcfile"]
+            tgt = ev.args[0] if ev.args else None
+            if ev.name.split(".")[-1] == "SevenZipFile" and any(e.kind == "call" and e.name.split(".")[-1] == "MultiVolume" for e in eng.trace):
+                return  # the archive is written into the multi-volume file opened just before (checked there)
+            mk = [e for e in eng.trace if e.kind == "pure" and e.name.split(".")[-1] == "Path" and e.result is tgt]
+            ok = False
+            if mk:
+                a = mk[-1].args[0]
+                ends = _endswith(s, ".7z")
+                ok = Or(And(ends, eq(a, s)), And(Not(ends), eq(a, V.concat(s, ".7z"))))
+            c.oblig("assert", "archive-name-is-arcname-with-7z-appended-if-missing@%s" % ev.name.split(".")[-1], ok, props=("C19",))
+            ex = [e for e in eng.trace if e.kind == "call" and e.name.endswith("exists") and e.recv is tgt]
+            c.oblig("assert", "existing-archive-is-not-overwritten@%s" % ev.name.split(".")[-1], And(bool(ex), Not(truthy(ex[-1].result))) if ex else False, props=("C19",))
+
+        h[("call", "exit")] = [on_exit]
+        h[("call", "SevenZipFile")] = [on_open]
+        h[("call", "MultiVolume")] = [on_open]
+        return h
+
+    def loops(self):
+        def noinv(c, Lp):
+            return []
+
+        def wrote(c, Lp):
+            evs = c.eng.trace[Lp.trace_mark:]
+            w = [e for e in evs if e.kind == "call" and e.name.split(".")[-1] in ("write", "writeall") and not (e.args and isinstance(e.args[0], str))]
+            return [("every-source-is-written-once", len(w) == 1)]
+
+        return {
+            "cli:Cli.run_create#loop0": LoopSpec("for-path", noinv, target="path in filenames", asserts=wrote),
+            "cli:Cli.run_create#loop1": LoopSpec("for-path-volumes", noinv, target="path in filenames", asserts=wrote),
+        }
+
+    def ensures(self, c, old, result, self_, args):
+        eng = c.eng
+        if eng.ctx_mode == "assume":
+            return []
+        zero = eq(result, 0)
+        opened = [e for e in eng.trace if e.kind == "call" and e.name.split(".")[-1] == "SevenZipFile"]
+        return [
+            ("zero-only-after-the-archive-was-written", Implies(zero, bool(opened))),
+            ("handled-exceptions-give-nonzero", Implies(zero, eng.ghost["caught"] == 0)),
+        ]
+
+
+def _endswith(s, suffix):
+    """s.endswith(suffix) for a symbolic string s and a literal suffix"""
+    n = len(suffix)
+    if not V.is_sym(s):
+        return s.endswith(suffix)
+    ln = V.L(s)
+    conds = [ln >= n]
+    for j, ch in enumerate(suffix):
+        conds.append(V.nth(s, ln - n + j) == ord(ch))
+    return And(*conds)
